@@ -373,6 +373,12 @@ MUTATIONS = [
      'desc': 'revert of the fix: beta3 computed on the frequencies as supplied (int64 overflow with a dispersion slope)',
      'edits': [('gnpy/core/elements.py', "        frequency = asarray(self.params.ref_frequency if frequency is None else frequency, dtype=float)\n        if self.params.dispersion.size > 1:\n            beta3 =",
                 "        frequency = asarray(self.params.ref_frequency if frequency is None else frequency)\n        if self.params.dispersion.size > 1:\n            beta3 =")]},
+    {'id': 'c02-revert-raman-ase-pump-order', 'props': ['C02'], 'tests': 'tests/test_science_utils.py',
+     'desc': 'revert of the fix: spontaneous Raman ASE pairs the i-th declared pump with row i of the profile',
+     'edits': [('gnpy/core/science_utils.py', "        for i, pump in enumerate(raman_pumps):\n", "        for i, pump in enumerate(fiber.raman_pumps):\n")]},
+    {'id': 'c18-revert-reorder-design-bands', 'props': ['C18'], 'tests': 'tests/test_legacy_yang.py',
+     'desc': 'revert of the fix: design band objects are not re-ordered (key f_min first) before validation',
+     'edits': [('gnpy/tools/convert_legacy_yang.py', "        json_data = reorder_design_bands(json_data)\n", "")]},
     {'id': 'c11-revert-explicit-ispart', 'props': ['C11'], 'tests': 'tests/test_path_computation_functions.py tests/test_disjunction.py',
      'desc': 'revert of fix e50d35fe: explicit route returned without checking the listed nodes are crossed in order',
      'edits': [('gnpy/topology/request.py', "    if total_path is not None and ispart(nodes_list, total_path):",
